@@ -19,14 +19,23 @@
     C08_access_fuel_suffices, C08_access_closure, C08_access_closure_finish, C08_access_serial_finish,
     C08_eval_at_every_world_unconditional          the closure statement WITHOUT the computed flag (fuel always suffices)
     C08_order_independent_access                   … and the access half of order independence without flags
-    C08_order_independent_assembly                 permuted successful programs assemble the same content (every logic)
-    C08_order_independent                          non-classical logics: permuted successful programs finish alike
-                                                   (same exception, or same content and same values)
+    C08_order_independent_assembly                 permuted successful programs assemble the same content (every logic, every setter)
+    C08_order_independent                          every logic (classical family: no Identity tuple set to T): permuted
+                                                   successful programs finish alike (same exception, or same content and values)
     C08_order_independent_classical_partial, C08_order_dependent_classical_witness
+    C08_setter_reduction, C08_setter_reduction_run set_literal_value / set_value ARE primitive setter calls (or raise)
+    C08_access_serial_exact                        the serial Access class as a function of the key set and pair set
+    C08_order_independent_all_sentences, C08_order_dependent_dead_end_witness
+                                                   the same value / the same exception for EVERY sentence (no dead ends)
+    C08_eval_no_constants                          what holds of a model without constants
+    C08_identity_completion_identity_free          the FULL identity statement when no Identity tuple is set to T
+    C08_worlds_of_assembled, C08_eval_is_spec_assembled
+                                                   value_of = documented semantics at EVERY world for every program of setter
+                                                   calls (failing ones included) followed by a successful finish — modal or not
 -/
 import Ptx.Proofs.LibModelKeys
 import Ptx.Proofs.LibModelFuel
-import Ptx.Proofs.LibModelOrderEval
+import Ptx.Proofs.LibModelIdFree
 import Ptx.Proofs.LibModelTest
 namespace Ptx.Props.C08
 open Ptx Ptx.LibModel
@@ -188,6 +197,81 @@ example :
       okIn L m.consts [] s = true ∧ m.R.succ 0 = [1, 0] ∧ m.R.succ 1 = [1] ∧ valueOf L m s 0 = .ok .T := by
   decide +kernel
 
+/-- the worlds of a model ASSEMBLED by any program of public setter / `R.add` calls — failing calls included —
+    and then successfully finished (any logic but a non-modal one with the serial Access class; there is none in
+    the tree): world 0 is a world of the finished relation; ALL its worlds satisfy the side condition of
+    `C08_eval_is_spec` (each has a frame — or the logic is modal —, they are closed under access, they have
+    successors where the logic's frames are serial); and in a non-modal logic 0 is the ONLY world
+    (`_complete_frames` raises KeyError otherwise, and a non-modal model never has a second frame) -/
+theorem C08_worlds_of_assembled (L : LogicData) (hT : L.tablesTotalB = true) (hD : L.modal = true ∨ L.frame ≠ .D)
+    (h : Hints) (ops : List MOp) (hset : ∀ op ∈ ops, op.setter = true) (m' : Model)
+    (hfin : finish L h (run L h Model.init ops).1 = (m', none)) :
+    WorldsOK L m' (· ∈ m'.R.keys) ∧ 0 ∈ m'.R.keys ∧ (L.modal = false → ∀ w ∈ m'.R.keys, w = 0) ∧ m'.finished = true :=
+  have hinv := C08_reachable_inv L hT h ops
+  have hw := worldsOK_of_run hT hD h hinv (run_run0 h ops _ (init_run0 L) hset) hfin
+  ⟨hw.1, hw.2.1, hw.2.2, (finish_R hfin (finish_ok_not_finished hfin) hinv.rwf).choose_spec.2.2.2.2⟩
+
+example :
+    let ops : List MOp := [.setPred Test.F [Test.a] .T 0, .setPred Test.F [Test.b] .T 1, .rAdd 0 0, .setAtomic 0 0 .N 0]
+    (∀ op ∈ ops, op.setter = true) ∧ (run Test.tCFOL {} Model.init ops).2 = [none, some .key, none, some .key] ∧
+      (finish Test.tCFOL {} (run Test.tCFOL {} Model.init ops).1).2 = none ∧
+      (finish Test.tCFOL {} (run Test.tCFOL {} Model.init ops).1).1.R = ⟨[0], [(0, 0)]⟩ ∧
+      (finish Test.tCFOL {} (run Test.tCFOL {} Model.init (ops ++ [.rAdd 0 1])).1).2 = some .key := by decide +kernel
+
+/-- `C08_eval_is_spec` with NO side condition left but "the program ran, `finish()` succeeded, the model has a
+    constant": for every program of public setter / `R.add` calls (failing calls included) followed by a
+    successful `finish()`, at EVERY world of the finished model (in a non-modal logic: the one world 0), every
+    sentence of `C08_eval_is_spec` evaluates — without raising — to its value under the documented semantics in
+    the structure the model denotes (domain: the model's constants; `dom0 hc`, the first constant, is the
+    structure's default element, which no closed sentence reads).
+    A model WITHOUT constants denotes no structure (empty domain): `C08_eval_no_constants`. -/
+theorem C08_eval_is_spec_assembled (L : LogicData) (hOK : foldProgramsOKB L = true) (hT : L.tablesTotalB = true)
+    (hD : L.modal = true ∨ L.frame ≠ .D) (h : Hints) (ops : List MOp) (hset : ∀ op ∈ ops, op.setter = true)
+    (m' : Model) (hfin : finish L h (run L h Model.init ops).1 = (m', none)) (hc : m'.consts ≠ [])
+    (s : Sent) (hs : okIn L m'.consts [] s = true) (w : Nat) (hw : w ∈ m'.R.keys) :
+    valueOf L m' s w = .ok (eval L (toStruct L m' (dom0 hc)) (envOf L m' (dom0 hc)) w s) := by
+  obtain ⟨hS, _, _, hf⟩ := C08_worlds_of_assembled L hT hD h ops hset m' hfin
+  have hinv' : m'.Inv L := by
+    have := finish_inv (tablesOK_of_total hT) h (C08_reachable_inv L hT h ops)
+    rw [hfin] at this; exact this
+  exact C08_eval_is_spec L hOK hT m' hf hinv'.valsOK (dom0 hc) _ hS s hs w hw
+
+/-- non-vacuity: a non-modal logic, a program with failing calls, a quantified sentence at world 0 -/
+example :
+    let L := Test.tCFOL
+    let ops : List MOp := [.setPred Test.F [Test.a] .T 0, .setPred Test.F [Test.b] .T 1, .setLiteral (.op1 .neg (.pred Test.G [Test.b])) .F 0,
+      .setPred Test.F [Test.a] .F 0]
+    let m' := (finish L {} (run L {} Model.init ops).1).1
+    let s : Sent := .quant .ex 0 0 (.op2 .conj (.pred Test.F [Test.x]) (.op1 .neg (.pred Test.G [Test.x])))
+    (∀ op ∈ ops, op.setter = true) ∧ (run L {} Model.init ops).2 = [none, some .key, none, some .modelValue] ∧
+      (finish L {} (run L {} Model.init ops).1).2 = none ∧ m'.consts = [(0, 0), (1, 0)] ∧ m'.R.keys = [0] ∧
+      okIn L m'.consts [] s = true ∧ valueOf L m' s 0 = .ok .T := by decide +kernel
+
+/-- a model WITHOUT constants denotes no structure (a structure's domain is nonempty; `c0 : Dom m` of
+    `C08_eval_is_spec` cannot be had).  What holds of it, for a finished model with values of the logic at worlds
+    `S` as in `C08_eval_is_spec`:
+      * a quantified sentence `Qx…` evaluates — whatever its body, at any world — to what the logic's fold program
+        returns on the EMPTY list of instances (`_limit_best`'s `default`: minval for ∃, maxval for ∀; `reduce`'s
+        `initial`; …): a value the documented semantics does not define (no fold graph has an entry for the
+        empty set of instance values);
+      * every quantifier-free sentence of `C08_eval_is_spec` evaluates to its documented value in the structure
+        with a one-point dummy domain (such a sentence has no parameters: predications are read at the empty
+        tuple). -/
+theorem C08_eval_no_constants (L : LogicData) (hOK : foldProgramsOKB L = true) (hT : L.tablesTotalB = true)
+    (m : Model) (hfin : m.finished = true) (hvals : m.ValsOK L) (hc : m.consts = []) :
+    (L.quantified = true → ∀ q vi vs b w, valueOf L m (.quant q vi vs b) w = .ok (foldQV L q [])) ∧
+    (∀ (S : Nat → Prop), WorldsOK L m S → ∀ s, okIn L m.consts [] s = true → qfree s = true → ∀ w, S w →
+      valueOf L m s w = .ok (eval L (toStruct0 L m) env0 w s)) :=
+  ⟨fun hq q vi vs b w => valueOf_quant_noconst L m hfin hq hc q vi vs b w,
+   fun S hS s hs hqf w hw => (valueOfF_noconst L hOK hT m hfin hvals S hS s.size s (Nat.le_refl _) (hc ▸ hs) hqf w hw).1⟩
+
+example :
+    let m := (run Test.tS4 {} Model.init [.setAtomic 0 0 .T 1, .rAdd 0 1, .finish]).1
+    m.finished = true ∧ m.consts = [] ∧ valueOf Test.tS4 m (.quant .ex 0 0 (.pred Test.F [Test.x])) 0 = .ok .F ∧
+      valueOf Test.tS4 m (.quant .univ 0 0 (.pred Test.F [Test.x])) 0 = .ok .T ∧
+      okIn Test.tS4 m.consts [] (.op1 .poss (.atom 0 0)) = true ∧ qfree (.op1 .poss (.atom 0 0)) = true ∧
+      valueOf Test.tS4 m (.op1 .poss (.atom 0 0)) 0 = .ok .T := by decide +kernel
+
 /-! ## the access relation after finish -/
 
 /-- `enforce()` of the reflexive / reflexive-transitive / equivalence Access classes adds only pairs
@@ -340,6 +424,29 @@ theorem C08_access_serial (R : Acc) :
 
 example : (Acc.enforce .D ⟨[0, 1], [(0, 1)]⟩).1 = ⟨[0, 1, 2], [(0, 1), (1, 2), (2, 2)]⟩ := by decide +kernel
 
+/-- the serial Access class EXACTLY, in terms of the key SET and the pair SET: with `n = max(worlds) + 1`,
+    if some world has no outgoing pair (a dead end) the finished pairs are the old ones, the arrows from every
+    dead end into `n`, and `n → n`, and `n` is the one new world; otherwise nothing changes.  (The world `n`
+    gets no frame: `C08_serial_world_not_completed`.) -/
+theorem C08_access_serial_exact (R : Acc) :
+    (∀ p, p ∈ (Acc.enforce .D R).1.pairs ↔ p ∈ R.pairs ∨
+      (R.DeadEnd ∧ p.2 = R.keys.foldl max 0 + 1 ∧
+        (p.1 = R.keys.foldl max 0 + 1 ∨ (p.1 ∈ R.keys ∧ ∀ b, (p.1, b) ∉ R.pairs)))) ∧
+    (∀ w, w ∈ (Acc.enforce .D R).1.keys ↔ w ∈ R.keys ∨ (R.DeadEnd ∧ w = R.keys.foldl max 0 + 1)) ∧
+    (∀ w ∈ R.keys, w < R.keys.foldl max 0 + 1) :=
+  ⟨(Acc.enforceSerial_iff R).1, (Acc.enforceSerial_iff R).2, fun w hw => by
+    have := (Acc.foldl_max_ge R.keys 0).2 w hw
+    omega⟩
+
+example : (Acc.DeadEnd ⟨[0, 1], [(0, 1)]⟩) ∧ ¬ (Acc.DeadEnd ⟨[0, 1], [(0, 1), (1, 1)]⟩) ∧
+    (Acc.enforce .D ⟨[0, 1], [(0, 1), (1, 1)]⟩).1 = ⟨[0, 1], [(0, 1), (1, 1)]⟩ := by
+  refine ⟨⟨1, by simp, by simp⟩, ?_, by decide +kernel⟩
+  rintro ⟨w, hw, hd⟩
+  simp only [List.mem_cons, List.not_mem_nil, or_false] at hw
+  rcases hw with rfl | rfl
+  · exact hd 1 (by simp)
+  · exact hd 1 (by simp)
+
 /-! ## identity and existence in the classical family -/
 
 /- Full statement (DESIGN `C08_identity_completion`): in `finish m` of a classical model, at every
@@ -363,6 +470,64 @@ example :
     let m := (run Test.tCFOL {} Model.init [.setPred Test.F [Test.a] .T 0, .finish]).1
     valueOf Test.tCFOL m (.pred Pred.identity [Test.a, Test.a]) 0 = .ok .T ∧
     valueOf Test.tCFOL m (.pred Pred.existence [Test.a]) 0 = .ok .T := by decide +kernel
+
+/-- the FULL identity statement holds when no call sets an Identity tuple to T (`MOp.setsIdT`; `set_literal_value`
+    / `set_value` calls that come down to such a call count): after the classical `finish()` of a program of
+    successful setter calls, at every world that has a frame, for constants `c`, `d` of the model `c = d`
+    evaluates to T exactly when `c` and `d` are the same constant — Identity is the identity of the domain, hence
+    an equivalence that every extension respects — and `E!c` is T.  (`hun`: the unassigned value of the logic
+    is not T; it is F in the seven logics of the family.) -/
+theorem C08_identity_completion_identity_free (L : LogicData) (hcl : isClassical L = true) (hun : L.T.unassigned ≠ .T)
+    (h : Hints) (ops : List MOp) (hset : ∀ op ∈ ops, op.setter = true)
+    (hok : ∀ e ∈ (run L h Model.init ops).2, e = none) (hid : ∀ op ∈ ops, op.setsIdT L = false)
+    (m' : Model) (hfin : finish L h (run L h Model.init ops).1 = (m', none)) :
+    ∀ (w : Nat), w ∈ akeys m'.frames → ∀ c ∈ m'.consts, ∀ d ∈ m'.consts,
+      (valueOf L m' (.pred Pred.identity [cparam c, cparam d]) w = .ok .T ↔ c = d) ∧
+      valueOf L m' (.pred Pred.existence [cparam c]) w = .ok .T := by
+  obtain ⟨hnf, _, _⟩ := run_setter_facts h hset hok
+  obtain ⟨hf, hc, hfr⟩ := finish_identity_free hcl h (run_FK h ops _ init_FK) (run_setter_no_idT h hset hok hid) hnf hfin
+  intro w hw c hcm d hdm
+  obtain ⟨hidn, hex⟩ := hfr w hw
+  have hwf : L.modal = true ∨ (m'.frames.lookup w).isSome = true := Or.inr (lookup_isSome_iff.2 hw)
+  have ht2 : tupInConsts m' [cparam c, cparam d] = true :=
+    tupInConsts_cparams (cs := [c, d]) (by intro x hx; simp only [List.mem_cons, List.not_mem_nil, or_false] at hx; rcases hx with rfl | rfl <;> assumption)
+  have ht1 : tupInConsts m' [cparam c] = true :=
+    tupInConsts_cparams (cs := [c]) (by intro x hx; simp only [List.mem_cons, List.not_mem_nil, or_false] at hx; subst hx; exact hcm)
+  rw [valueOf_pred hf hwf _ ht2, valueOf_pred hf hwf _ ht1, hex c (hc ▸ hcm)]
+  refine ⟨?_, rfl⟩
+  cases hl : ((frameD m' w).interp Pred.identity).lookup [cparam c, cparam d] with
+  | none =>
+    simp only [Option.getD_none, Except.ok.injEq]
+    constructor
+    · intro h'; exact absurd h' hun
+    · intro h'
+      subst h'
+      have := (hidn [cparam c, cparam c]).2 ⟨c, hc ▸ hcm, rfl⟩
+      rw [hl] at this; cases this
+  | some v =>
+    simp only [Option.getD_some, Except.ok.injEq]
+    constructor
+    · intro h'
+      subst h'
+      obtain ⟨k, _, hk⟩ := (hidn _).1 hl
+      simp only [List.cons.injEq, and_true] at hk
+      exact (cparam_inj hk.1).trans (cparam_inj hk.2).symm
+    · intro h'
+      subst h'
+      have := (hidn [cparam c, cparam c]).2 ⟨c, hc ▸ hcm, rfl⟩
+      rw [hl] at this
+      cases this; rfl
+
+example :
+    let L := Test.tS4
+    let ops : List MOp := [.setPred Test.F [Test.a] .T 1, .rAdd 0 1, .setLiteral (.op1 .neg (.pred Pred.identity [Test.a, Test.b])) .T 0]
+    let m' := (finish L {} (run L {} Model.init ops).1).1
+    isClassical L = true ∧ L.T.unassigned ≠ .T ∧ (∀ op ∈ ops, op.setter = true) ∧ (∀ op ∈ ops, op.setsIdT L = false) ∧
+      (run L {} Model.init ops).2 = [none, none, none] ∧ (finish L {} (run L {} Model.init ops).1).2 = none ∧
+      m'.consts = [(0, 0), (1, 0)] ∧ akeys m'.frames = [0, 1] ∧
+      valueOf L m' (.pred Pred.identity [Test.a, Test.b]) 0 = .ok .F ∧ valueOf L m' (.pred Pred.identity [Test.b, Test.a]) 1 = .ok .F ∧
+      valueOf L m' (.pred Pred.identity [Test.b, Test.b]) 1 = .ok .T ∧
+      MOp.setsIdT L (.setLiteral (.op1 .neg (.pred Pred.identity [Test.a, Test.b])) .F 0) = true := by decide +kernel
 
 /-- witness (i): `a = b` set true, finish: `b = a` evaluates to F — identity is not symmetric -/
 theorem C08_identity_not_symmetric :
@@ -426,9 +591,10 @@ example : (finishX Test.tD {} (run Test.tD {} Model.init [.setPred Test.F [Test.
    `self.constants` (an input, `Hints`, of the mirror): harness finding
    `C08:identity-completion:order-dependent`.  Proved here: the access part — the finished
    relation is a function of the SET of worlds and pairs, whatever the order of the `R.add` calls.
-   The value-setting part: see `C08_order_independent_assembly` (every logic), `C08_order_independent`
-   (every non-classical logic: complete) and `C08_order_independent_classical_partial` below; the access part
-   without the computed flags is `C08_order_independent_access`. -/
+   The value-setting part: see `C08_order_independent_assembly` (every logic, every public setter),
+   `C08_order_independent` (every logic; the classical family when no Identity tuple is set to T: complete),
+   `C08_order_independent_all_sentences` and `C08_order_independent_classical_partial` below; the access part
+   without the computed flags, for every Access class, is `C08_order_independent_access`. -/
 theorem C08_order_independent_partial (k : FrameKind) (hk : Frames.isRefl k = true) (R₁ R₂ : Acc)
     (h₁ : R₁.WF) (h₂ : R₂.WF) (hkeys : ∀ w, w ∈ R₁.keys ↔ w ∈ R₂.keys) (hpairs : ∀ p, p ∈ R₁.pairs ↔ p ∈ R₂.pairs)
     (f₁ : (Acc.enforce k R₁).2 = true) (f₂ : (Acc.enforce k R₂).2 = true) (p : Nat × Nat) :
@@ -441,19 +607,23 @@ example :
     R₁ ≠ R₂ ∧ (∀ p ∈ (Acc.enforce .S4 R₁).1.pairs, p ∈ (Acc.enforce .S4 R₂).1.pairs) ∧
       (Acc.enforce .S4 R₁).2 = true ∧ (Acc.enforce .S4 R₂).2 = true := by decide +kernel
 
-/-- the access half without the computed flags: for every Access class but the serial one the finished
-    relation (worlds and pairs) is a function of the SET of worlds and pairs -/
-theorem C08_order_independent_access (k : FrameKind) (hk : k ≠ .D) (R₁ R₂ : Acc) (h₁ : R₁.WF) (h₂ : R₂.WF)
+/-- the access half without the computed flags: for EVERY Access class — the serial one included: the world
+    `SerialAccess.enforce()` invents is `max(worlds) + 1` and the dead ends are the worlds without an outgoing
+    pair, both functions of the sets — the finished relation (worlds and pairs) is a function of the SET of
+    worlds and pairs -/
+theorem C08_order_independent_access (k : FrameKind) (R₁ R₂ : Acc) (h₁ : R₁.WF) (h₂ : R₂.WF)
     (hkeys : ∀ w, w ∈ R₁.keys ↔ w ∈ R₂.keys) (hpairs : ∀ p, p ∈ R₁.pairs ↔ p ∈ R₂.pairs) :
     (∀ w, w ∈ (Acc.enforce k R₁).1.keys ↔ w ∈ (Acc.enforce k R₂).1.keys) ∧
     (∀ p, p ∈ (Acc.enforce k R₁).1.pairs ↔ p ∈ (Acc.enforce k R₂).1.pairs) :=
-  Acc.enforce_set_congr hk h₁ h₂ hkeys hpairs
+  Acc.enforce_set_congr_all k h₁ h₂ hkeys hpairs
 
 example :
     let R₁ := ((Model.init.R.add 0 1).add 1 2)
     let R₂ := ((Model.init.R.add 1 2).add 0 1)
     R₁ ≠ R₂ ∧ (∀ p ∈ (Acc.enforce .S5 R₁).1.pairs, p ∈ (Acc.enforce .S5 R₂).1.pairs) ∧
-      (Acc.enforce .S5 R₁).1.pairs ≠ (Acc.enforce .S5 R₂).1.pairs := by decide +kernel
+      (Acc.enforce .S5 R₁).1.pairs ≠ (Acc.enforce .S5 R₂).1.pairs ∧
+      (Acc.enforce .D R₁).1 = ⟨[0, 1, 2, 3], [(0, 1), (1, 2), (2, 3), (3, 3)]⟩ ∧
+      (Acc.enforce .D R₂).1 = ⟨[0, 1, 2, 3], [(1, 2), (0, 1), (2, 3), (3, 3)]⟩ := by decide +kernel
 
 /- The CONTENT of a model (`Model.has`, `Model.Eqv`; Ptx/Proofs/LibModelOrder.lean) is everything
    `_complete_frames`, `enforce()`, `value_of` and `get_data` can see of it: which worlds have a frame
@@ -464,27 +634,64 @@ example :
    `finished` / `_is_frame_complete` flags.  It is "equality of canonicalised state": two models with the
    same content differ only in the insertion order of their dicts / sets. -/
 
-/-- every logic: two programs of `set_atomic_value` / `set_opaque_value` / `set_predicated_value` / `R.add`
-    calls that are permutations of one another and in which no call raises assemble models with the same
-    content (the content is described by MEMBERSHIP of calls in the program: `run_has`) -/
-theorem C08_order_independent_assembly (L : LogicData) (h : Hints) (ops₁ ops₂ : List MOp) (hperm : ops₁.Perm ops₂)
-    (hprim : ∀ op ∈ ops₁, op.prim = true)
-    (hok₁ : ∀ e ∈ (run L h Model.init ops₁).2, e = none) (hok₂ : ∀ e ∈ (run L h Model.init ops₂).2, e = none) :
-    (run L h Model.init ops₁).1.Eqv (run L h Model.init ops₂).1 :=
-  run_perm_eqv Model.init hperm hprim hok₁ hok₂
+/-! ### `set_literal_value` / `set_value` are primitive setter calls -/
+
+/-- REDUCTION of the two derived setters: for every call `op` other than `finish()`, on EVERY model `m`
+    (finished or not, whatever it contains):
+      * if `op` has a primitive reduction `op'` (`MOp.toPrim`: the call itself for the three primitive setters and
+        `R.add`; for `set_literal_value(s, v)` / `set_value(s, v)`: `set_opaque_value(s, v)` if `s` is uninterpreted,
+        else the atom / predication under the negations of `s` with `v` negated by the logic's own ¬ table once
+        per negation), then `op'` is one of `set_atomic_value` / `set_predicated_value` / `set_opaque_value` /
+        `R.add` and the call has EXACTLY the outcome of `op'` — same new state, same exception;
+      * otherwise the call raises and leaves the model as it was. -/
+theorem C08_setter_reduction (L : LogicData) (h : Hints) (m : Model) (op : MOp) (hs : op.setter = true) :
+    (∀ op', op.toPrim L = some op' → op'.prim = true ∧ step L h m op = step L h m op') ∧
+    (op.toPrim L = none → ∃ e, step L h m op = (m, some e)) :=
+  ⟨fun _ ht => ⟨MOp.toPrim_prim ht, step_toPrim h m ht⟩, fun ht => step_toPrim_none h m hs ht⟩
 
 example :
-    let ops₁ : List MOp := [.setPred Test.F [Test.a] .T 1, .setPred Test.G [Test.b] .T 2, .rAdd 0 1]
-    let ops₂ : List MOp := [.setPred Test.G [Test.b] .T 2, .setPred Test.F [Test.a] .T 1, .rAdd 0 1]
-    ops₁.Perm ops₂ ∧ (∀ op ∈ ops₁, op.prim = true) ∧ (run Test.tS4 {} Model.init ops₁).2 = [none, none, none] ∧
+    MOp.toPrim Test.tLP (.setLiteral (.op1 .neg (.op1 .neg (.op1 .neg (.pred Test.F [Test.a])))) .T 1)
+      = some (.setPred Test.F [Test.a] .F 1) ∧
+    MOp.toPrim Test.tLP (.setValue (.op1 .neg (.atom 0 0)) .B 0) = some (.setAtomic 0 0 .B 0) ∧
+    MOp.toPrim Test.tCFOL (.setValue (.op1 .neg (.op1 .poss (.atom 0 0))) .T 0) = some (.setOpaque (.op1 .poss (.atom 0 0)) .F 0) ∧
+    MOp.toPrim Test.tLP (.setValue (.op1 .neg (.op1 .neg (.atom 0 0))) .T 0) = none ∧
+    MOp.toPrim Test.tLP (.setLiteral (.op2 .conj (.atom 0 0) (.atom 1 0)) .T 0) = none := by decide +kernel
+
+/-- hence a whole program runs exactly like its primitive reduction (same final model, same exception per call) -/
+theorem C08_setter_reduction_run (L : LogicData) (h : Hints) (m : Model) (ops : List MOp) :
+    run L h m (ops.map (MOp.reduce L)) = run L h m ops :=
+  run_reduce h ops m
+
+example : ([.setLiteral (.op1 .neg (.pred Test.F [Test.a])) .T 1, .rAdd 0 1, .setValue (.atom 0 0) .B 0] : List MOp).map
+    (MOp.reduce Test.tLP) = [.setPred Test.F [Test.a] .F 1, .rAdd 0 1, .setAtomic 0 0 .B 0] := by decide +kernel
+
+/-! ### assembly and finish -/
+
+/-- every logic, EVERY public setter: two programs of `set_atomic_value` / `set_opaque_value` /
+    `set_predicated_value` / `set_literal_value` / `set_value` / `R.add` calls that are permutations of one another
+    and in which no call raises assemble models with the same content (the content is described by MEMBERSHIP of
+    the calls' primitive reductions in the program: `run_has`, `C08_setter_reduction_run`) -/
+theorem C08_order_independent_assembly (L : LogicData) (h : Hints) (ops₁ ops₂ : List MOp) (hperm : ops₁.Perm ops₂)
+    (hset : ∀ op ∈ ops₁, op.setter = true)
+    (hok₁ : ∀ e ∈ (run L h Model.init ops₁).2, e = none) (hok₂ : ∀ e ∈ (run L h Model.init ops₂).2, e = none) :
+    (run L h Model.init ops₁).1.Eqv (run L h Model.init ops₂).1 :=
+  run_perm_eqv_gen h h hperm hset hok₁ hok₂
+
+example :
+    let ops₁ : List MOp := [.setLiteral (.op1 .neg (.pred Test.F [Test.a])) .F 1, .setValue (.pred Test.G [Test.b]) .T 2, .rAdd 0 1]
+    let ops₂ : List MOp := [.setValue (.pred Test.G [Test.b]) .T 2, .setLiteral (.op1 .neg (.pred Test.F [Test.a])) .F 1, .rAdd 0 1]
+    ops₁.Perm ops₂ ∧ (∀ op ∈ ops₁, op.setter = true) ∧ (run Test.tS4 {} Model.init ops₁).2 = [none, none, none] ∧
       (run Test.tS4 {} Model.init ops₂).2 = [none, none, none] ∧
       (run Test.tS4 {} Model.init ops₁).1 ≠ (run Test.tS4 {} Model.init ops₂).1 := by
   refine ⟨?_, by decide, by decide +kernel, by decide +kernel, by decide +kernel⟩
   exact List.Perm.swap _ _ _
 
-/-- ORDER INDEPENDENCE, every logic outside the classical family (all 50 such logics of the tree have an
-    Access class other than the serial one): two programs of value-setting / `R.add` calls that are
-    permutations of one another, none of whose calls raises, each followed by `finish()`:
+/-- ORDER INDEPENDENCE — every logic (every Access class, the serial one included), every public setter; in the
+    classical family (CPL CFOL K D T S4 S5) under the condition that no call sets an Identity tuple to T
+    (`MOp.setsIdT`: the call's primitive reduction is `set_predicated_value(Identity(…), 'T')`; with such calls the
+    statement is FALSE of the code: `C08_order_dependent_classical_witness`).
+    Two programs of value-setting / `R.add` calls that are permutations of one another, none of whose calls
+    raises, each followed by `finish()`:
       * both `finish()` calls raise the same exception, or neither raises, and then
       * the finished models have the same content (`Model.Eqv`: same frames, same stored values, same
         constants, same access relation — as sets),
@@ -493,11 +700,14 @@ example :
         access (the side condition of `C08_eval_is_spec` on the first model),
       * every uninterpreted sentence has the same value in both at every world that has a frame (any
         world, in a modal logic),
-      * in a modal logic `S` can be taken to be ALL worlds of the finished relation. -/
+      * `S` can be taken to be ALL worlds of the finished relation (in a modal logic; in a non-modal logic —
+        whose Access class is not the serial one — that is the one world 0: `C08_worlds_of_assembled`).
+    (Sentences outside `C08_eval_is_spec`: `C08_order_independent_all_sentences`.) -/
 theorem C08_order_independent (L : LogicData) (hOK : foldProgramsOKB L = true) (hT : L.tablesTotalB = true)
-    (hncl : isClassical L = false) (hD : L.frame ≠ .D) (h₁ h₂ : Hints) (ops₁ ops₂ : List MOp)
-    (hperm : ops₁.Perm ops₂) (hprim : ∀ op ∈ ops₁, op.prim = true)
-    (hok₁ : ∀ e ∈ (run L h₁ Model.init ops₁).2, e = none) (hok₂ : ∀ e ∈ (run L h₂ Model.init ops₂).2, e = none) :
+    (h₁ h₂ : Hints) (ops₁ ops₂ : List MOp)
+    (hperm : ops₁.Perm ops₂) (hset : ∀ op ∈ ops₁, op.setter = true)
+    (hok₁ : ∀ e ∈ (run L h₁ Model.init ops₁).2, e = none) (hok₂ : ∀ e ∈ (run L h₂ Model.init ops₂).2, e = none)
+    (hid : isClassical L = true → ∀ op ∈ ops₁, op.setsIdT L = false) :
     (finish L h₁ (run L h₁ Model.init ops₁).1).2 = (finish L h₂ (run L h₂ Model.init ops₂).1).2 ∧
     ∀ m₁ m₂ : Model, finish L h₁ (run L h₁ Model.init ops₁).1 = (m₁, none) →
       finish L h₂ (run L h₂ Model.init ops₂).1 = (m₂, none) →
@@ -506,17 +716,16 @@ theorem C08_order_independent (L : LogicData) (hOK : foldProgramsOKB L = true) (
           valueOf L m₂ s w = valueOf L m₁ s w) ∧
       (∀ s w, isOpaque L s = true → (L.modal = true ∨ (m₁.frames.lookup w).isSome = true) →
           valueOf L m₂ s w = valueOf L m₁ s w) ∧
-      (L.modal = true → ∀ (_ : Dom m₁) s, okIn L m₁.consts [] s = true → ∀ w ∈ m₁.R.keys,
+      ((L.modal = true ∨ L.frame ≠ .D) → ∀ (_ : Dom m₁) s, okIn L m₁.consts [] s = true → ∀ w ∈ m₁.R.keys,
           valueOf L m₂ s w = valueOf L m₁ s w) := by
-  obtain ⟨he, hq⟩ := order_independent hncl hD h₁ h₂ hperm hprim hok₁ hok₂
+  obtain ⟨he, hq⟩ := order_independent_gen h₁ h₂ hperm hset hok₁ hok₂ hid
   refine ⟨he, ?_⟩
   intro m₁ m₂ hf₁ hf₂
   have heq : m₁.Eqv m₂ := by
     have := hq (by rw [hf₁])
     rw [hf₁, hf₂] at this
     exact this
-  have hnf : (run L h₁ Model.init ops₁).1.finished = false := by
-    rw [(run_has ops₁ Model.init hprim hok₁).2.1]; rfl
+  obtain ⟨hnf, _, hwf⟩ := run_setter_facts h₁ hset hok₁
   have hinv := C08_reachable_inv L hT h₁ ops₁
   have hinv₁ : m₁.Inv L := by
     have := finish_inv (tablesOK_of_total hT) h₁ hinv
@@ -526,34 +735,133 @@ theorem C08_order_independent (L : LogicData) (hOK : foldProgramsOKB L = true) (
       valueOf L m₂ s w = valueOf L m₁ s w := fun c0 S hS s hs w hw =>
     valueOfF_congr L hOK hT m₁ m₂ heq hfin₁ hinv₁.valsOK c0 S hS s.size s (Nat.le_refl _) hs w hw
   refine ⟨heq, key, fun s w hs hw => valueOf_opaque_congr heq hfin₁ hw hs, ?_⟩
-  intro hmod c0 s hs w hw
-  exact key c0 _ (worldsOK_of_finish hmod hT h₁ (finishX_flag hf₁ hnf hinv.rwf) hnf hinv) s hs w hw
+  intro hD c0 s hs w hw
+  exact key c0 _ (worldsOK_of_run hT hD h₁ hinv (run_run0 h₁ ops₁ _ (init_run0 L) hset) hf₁).1 s hs w hw
 
-/-- non-vacuity: a non-classical modal logic (LP tables on S4 frames), two orders of the same calls, both
-    succeed, the finished models differ as data (insertion order) and agree on a quantified modal sentence -/
+/-- non-vacuity: a non-classical modal logic (LP tables on S4 frames), two orders of the same calls (one of them a
+    `set_literal_value`), both succeed, the finished models differ as data (insertion order) and agree on a
+    quantified modal sentence -/
 example :
     let L : LogicData := { Test.tLP with name := "tS4LP", modal := true, frame := .S4 }
-    let ops₁ : List MOp := [.setPred Test.F [Test.a] .B 1, .rAdd 0 1, .setPred Test.F [Test.b] .T 0]
-    let ops₂ : List MOp := [.setPred Test.F [Test.b] .T 0, .rAdd 0 1, .setPred Test.F [Test.a] .B 1]
+    let ops₁ : List MOp := [.setLiteral (.op1 .neg (.pred Test.F [Test.a])) .B 1, .rAdd 0 1, .setPred Test.F [Test.b] .T 0]
+    let ops₂ : List MOp := [.setPred Test.F [Test.b] .T 0, .rAdd 0 1, .setLiteral (.op1 .neg (.pred Test.F [Test.a])) .B 1]
     let m₁ := (finish L {} (run L {} Model.init ops₁).1).1
     let m₂ := (finish L {} (run L {} Model.init ops₂).1).1
     let s : Sent := .op1 .nec (.quant .ex 0 0 (.pred Test.F [Test.x]))
-    isClassical L = false ∧ L.frame ≠ .D ∧ (run L {} Model.init ops₁).2 = [none, none, none] ∧
+    isClassical L = false ∧ (∀ op ∈ ops₁, op.setter = true) ∧ (run L {} Model.init ops₁).2 = [none, none, none] ∧
       (run L {} Model.init ops₂).2 = [none, none, none] ∧ (finish L {} (run L {} Model.init ops₁).1).2 = none ∧
       m₁ ≠ m₂ ∧ okIn L m₁.consts [] s = true ∧ valueOf L m₁ s 0 = valueOf L m₂ s 0 ∧ valueOf L m₁ s 0 = .ok .B := by
   decide +kernel
 
-/- Classical family (CPL CFOL K D T S4 S5): the full statement is FALSE of the mirrored code — the one-pass
-   identity completion of cpl.Model.finish walks `self.constants` (a `set`; its iteration order is an input of
-   the mirror, `Hints`) and what it adds depends on that order; see the witness below and the harness finding
-   `C08:identity-completion:order-dependent`.  Proved: everything in `finish()` EXCEPT the identity pass is
-   order independent — the assembled models have the same content, `_complete_frames` maps them to models with
-   the same content (or raises in both), and the finished models have the same constants and (Access class
-   not serial) the same access relation.  Not proved: that the identity pass itself is order independent when
-   no Identity value is set to T (then `_get_identicals` is empty and the pass only adds `c = c` and `E!c`);
-   the content lemmas for `_agument_extension_with_identicals` / `_ensure_self_*` are missing. -/
-theorem C08_order_independent_classical_partial (L : LogicData) (hcl : isClassical L = true) (hD : L.frame ≠ .D)
-    (h₁ h₂ : Hints) (ops₁ ops₂ : List MOp) (hperm : ops₁.Perm ops₂) (hprim : ∀ op ∈ ops₁, op.prim = true)
+/-- non-vacuity, classical family, serial Access class (logic D), no Identity tuple set to T: the hypotheses hold, the
+    finished models differ as data, the world the Access class invents (3) is the same, and the values agree -/
+example :
+    let L := Test.tD
+    let ops₁ : List MOp := [.setLiteral (.op1 .neg (.pred Test.F [Test.a])) .F 1, .rAdd 0 1, .setPred Test.G [Test.b] .T 2,
+      .setPred Pred.identity [Test.a, Test.b] .F 0]
+    let ops₂ : List MOp := [.setPred Pred.identity [Test.a, Test.b] .F 0, .setPred Test.G [Test.b] .T 2, .rAdd 0 1,
+      .setLiteral (.op1 .neg (.pred Test.F [Test.a])) .F 1]
+    let m₁ := (finish L {} (run L {} Model.init ops₁).1).1
+    let m₂ := (finish L { consts := [(1, 0), (0, 0)] } (run L {} Model.init ops₂).1).1
+    let s : Sent := .op1 .poss (.quant .ex 0 0 (.op2 .conj (.pred Test.F [Test.x]) (.pred Pred.identity [Test.x, Test.x])))
+    isClassical L = true ∧ L.frame = .D ∧ (∀ op ∈ ops₁, op.setter = true) ∧ (∀ op ∈ ops₁, op.setsIdT L = false) ∧
+      (run L {} Model.init ops₁).2 = [none, none, none, none] ∧ (run L {} Model.init ops₂).2 = [none, none, none, none] ∧
+      (finish L {} (run L {} Model.init ops₁).1).2 = none ∧ m₁ ≠ m₂ ∧ m₁.R.keys = [0, 1, 2, 3] ∧
+      okIn L m₁.consts [] s = true ∧ valueOf L m₁ s 0 = valueOf L m₂ s 0 ∧ valueOf L m₁ s 0 = .ok .T := by
+  decide +kernel
+
+/- Full statement: the finished models of `C08_order_independent` give EVERY sentence — also those outside
+   `C08_eval_is_spec`: free variables, parameters that are not constants of the model, quantifiers re-binding
+   their own variable — the same value or the same exception, at every world.
+   FALSE of the code where worlds can be dead ends (frames of K): the folds consume generators and stop early, `□…`
+   is vacuously true at a dead end whatever its body would raise, so whether a `DenotationError` is reached depends
+   on the order in which `R[w]` yields the successors, i.e. on the order of the `R.add` calls
+   (`C08_order_dependent_dead_end_witness`; on the real object: K, `R.add` of (0,8) (0,16) (0,24) (24,25) in this and
+   in the order (0,24) (0,8) (0,16) (24,25): `value_of(◇□Fd, world=0)` for a constant `d` that is not in the model is
+   `T` in the first, `DenotationError` in the second).
+   Proved: the full statement at worlds without dead ends (`WorldsAny`; in every logic whose frames are serial,
+   and in every non-modal logic, these are ALL worlds of the finished model), for a model with a constant.  The key
+   lemma is `errPart_uniform`: whether an instance `c >> s` raises, and what, does not depend on the model constant
+   substituted nor on the (non-dead-end) world, so every fold runs over a list that is all values or all the same
+   exception. -/
+theorem C08_order_independent_all_sentences (L : LogicData) (hOK : foldProgramsOKB L = true) (hT : L.tablesTotalB = true)
+    (h₁ h₂ : Hints) (ops₁ ops₂ : List MOp)
+    (hperm : ops₁.Perm ops₂) (hset : ∀ op ∈ ops₁, op.setter = true)
+    (hok₁ : ∀ e ∈ (run L h₁ Model.init ops₁).2, e = none) (hok₂ : ∀ e ∈ (run L h₂ Model.init ops₂).2, e = none)
+    (hid : isClassical L = true → ∀ op ∈ ops₁, op.setsIdT L = false)
+    (m₁ m₂ : Model) (hf₁ : finish L h₁ (run L h₁ Model.init ops₁).1 = (m₁, none))
+    (hf₂ : finish L h₂ (run L h₂ Model.init ops₂).1 = (m₂, none)) :
+    (∀ (_ : Dom m₁) (S : Nat → Prop), WorldsAny L m₁ S → ∀ (s : Sent) w, S w → valueOf L m₂ s w = valueOf L m₁ s w) ∧
+    (((L.modal = false ∧ L.frame ≠ .D) ∨ (L.modal = true ∧ L.emptyAccessOk = false)) →
+      ∀ (_ : Dom m₁) (s : Sent), ∀ w ∈ m₁.R.keys, valueOf L m₂ s w = valueOf L m₁ s w) := by
+  obtain ⟨heq, _, _, _⟩ := (C08_order_independent L hOK hT h₁ h₂ ops₁ ops₂ hperm hset hok₁ hok₂ hid).2 m₁ m₂ hf₁ hf₂
+  have hinv := C08_reachable_inv L hT h₁ ops₁
+  have hinv₁ : m₁.Inv L := by
+    have := finish_inv (tablesOK_of_total hT) h₁ hinv
+    rw [hf₁] at this; exact this
+  have hfin₁ : m₁.finished = true := (finish_R hf₁ (finish_ok_not_finished hf₁) hinv.rwf).choose_spec.2.2.2.2
+  have key : ∀ (_ : Dom m₁) (S : Nat → Prop), WorldsAny L m₁ S → ∀ (s : Sent) w, S w →
+      valueOf L m₂ s w = valueOf L m₁ s w := fun c0 S hS s w hw =>
+    (valueOfF_congr_any L hOK hT m₁ m₂ heq hfin₁ hinv₁.valsOK c0 S hS s.size s w hw).1
+  refine ⟨key, ?_⟩
+  intro hL c0 s w hw
+  have hD : L.modal = true ∨ L.frame ≠ .D := by
+    rcases hL with h | h
+    · exact Or.inr h.2
+    · exact Or.inl h.1
+  have hW := (worldsOK_of_run hT hD h₁ hinv (run_run0 h₁ ops₁ _ (init_run0 L) hset) hf₁).1
+  refine key c0 _ ⟨hW.frame, hW.succ, ?_⟩ s w hw
+  intro hm w' hw'
+  rcases hL with h | h
+  · rw [h.1] at hm; cases hm
+  · exact hW.serial h.2 w' hw'
+
+/-- non-vacuity: logic D (serial frames), a sentence with a constant that is not in the model (`Gc`, raising
+    DenotationError) behind a disjunct, and one with a free variable: same outcome in both finished models -/
+example :
+    let L := Test.tD
+    let ops₁ : List MOp := [.setPred Test.F [Test.a] .T 1, .rAdd 0 1, .setPred Test.G [Test.b] .T 0]
+    let ops₂ : List MOp := [.setPred Test.G [Test.b] .T 0, .rAdd 0 1, .setPred Test.F [Test.a] .T 1]
+    let m₁ := (finish L {} (run L {} Model.init ops₁).1).1
+    let m₂ := (finish L {} (run L {} Model.init ops₂).1).1
+    let s : Sent := .op1 .poss (.quant .ex 0 0 (.op2 .disj (.pred Test.F [Test.x]) (.pred Test.G [Test.c])))
+    let s' : Sent := .quant .univ 0 0 (.quant .ex 0 0 (.pred Test.F [Test.x]))
+    L.modal = true ∧ L.emptyAccessOk = false ∧ (finish L {} (run L {} Model.init ops₁).1).2 = none ∧ m₁ ≠ m₂ ∧
+      m₁.consts = [(0, 0), (1, 0)] ∧ m₂.consts = [(1, 0), (0, 0)] ∧
+      valueOf L m₁ s 0 = .error .denotation ∧ valueOf L m₂ s 0 = .error .denotation ∧
+      valueOf L m₁ s' 1 = valueOf L m₂ s' 1 ∧ valueOf L m₁ (.pred Test.F [Test.x]) 1 = .error .denotation := by
+  decide +kernel
+
+/-- witness that the full statement fails where worlds can be dead ends (frames of K; classical K here, no Identity
+    tuple set): `◇□Fb` with `b` not a constant of the model.  Worlds 1 and 2 are dead ends (`□Fb` is vacuously T
+    there), world 3 has a successor (`□Fb` raises DenotationError there).  With `R[0]` yielding 1, 2, 3 the
+    short-circuiting maximum stops at the second T; yielding 3 first it raises. -/
+theorem C08_order_dependent_dead_end_witness :
+    let L : LogicData := { Test.tD with name := "tK", frame := .K }
+    let ops₁ : List MOp := [.rAdd 0 1, .rAdd 0 2, .rAdd 0 3, .rAdd 3 4, .setPred Test.F [Test.a] .T 0]
+    let ops₂ : List MOp := [.rAdd 0 3, .rAdd 0 1, .rAdd 0 2, .rAdd 3 4, .setPred Test.F [Test.a] .T 0]
+    let m₁ := (finish L {} (run L {} Model.init ops₁).1).1
+    let m₂ := (finish L {} (run L {} Model.init ops₂).1).1
+    let s : Sent := .op1 .poss (.op1 .nec (.pred Test.F [Test.b]))
+    (run L {} Model.init ops₁).2 = [none, none, none, none, none] ∧ (run L {} Model.init ops₂).2 = [none, none, none, none, none] ∧
+      (finish L {} (run L {} Model.init ops₁).1).2 = none ∧ (finish L {} (run L {} Model.init ops₂).1).2 = none ∧
+      m₁.consts = [(0, 0)] ∧ m₁.R.succ 1 = [] ∧ m₁.R.succ 0 = [1, 2, 3] ∧ m₂.R.succ 0 = [3, 1, 2] ∧
+      valueOf L m₁ s 0 = .ok .T ∧ valueOf L m₂ s 0 = .error .denotation := by decide +kernel
+
+example : ([.rAdd 0 1, .rAdd 0 2, .rAdd 0 3, .rAdd 3 4, .setPred Test.F [Test.a] .T 0] : List MOp).Perm
+    [.rAdd 0 3, .rAdd 0 1, .rAdd 0 2, .rAdd 3 4, .setPred Test.F [Test.a] .T 0] :=
+  by decide
+
+/- Classical family (CPL CFOL K D T S4 S5), programs that DO set Identity tuples to T: the full statement is FALSE of
+   the mirrored code — the one-pass identity completion of cpl.Model.finish walks `self.constants` (a `set`; its
+   iteration order is an input of the mirror, `Hints`) and what it adds depends on that order; see the witness below
+   and the harness finding `C08:identity-completion:order-dependent`.  Proved for ALL programs of the classical
+   family: everything in `finish()` EXCEPT the identity pass is order independent — the assembled models have the
+   same content, `_complete_frames` maps them to models with the same content (or raises in both), and the finished
+   models have the same constants and the same access relation (every Access class).  The identity pass itself is
+   order independent exactly when no Identity tuple is set to T: `C08_order_independent`. -/
+theorem C08_order_independent_classical_partial (L : LogicData) (hcl : isClassical L = true)
+    (h₁ h₂ : Hints) (ops₁ ops₂ : List MOp) (hperm : ops₁.Perm ops₂) (hset : ∀ op ∈ ops₁, op.setter = true)
     (hok₁ : ∀ e ∈ (run L h₁ Model.init ops₁).2, e = none) (hok₂ : ∀ e ∈ (run L h₂ Model.init ops₂).2, e = none) :
     (run L h₁ Model.init ops₁).1.Eqv (run L h₂ Model.init ops₂).1 ∧
     (∀ c₁, completeFrames L (run L h₁ Model.init ops₁).1 = .ok c₁ →
@@ -562,29 +870,25 @@ theorem C08_order_independent_classical_partial (L : LogicData) (hcl : isClassic
       finish L h₂ (run L h₂ Model.init ops₂).1 = (m₂, none) →
       (∀ c, c ∈ m₁.consts ↔ c ∈ m₂.consts) ∧ (∀ w, w ∈ m₁.R.keys ↔ w ∈ m₂.R.keys) ∧
       (∀ p, p ∈ m₁.R.pairs ↔ p ∈ m₂.R.pairs) := by
-  have hprim₂ : ∀ op ∈ ops₂, op.prim = true := fun op ho => hprim op (hperm.mem_iff.2 ho)
-  have hok₂' : ∀ e ∈ (run L h₁ Model.init ops₂).2, e = none := by rw [run_hints h₁ h₂ ops₂ _ hprim₂]; exact hok₂
-  have heq := run_perm_eqv (hints := h₁) Model.init hperm hprim hok₁ hok₂'
-  rw [run_hints h₁ h₂ ops₂ _ hprim₂] at heq
+  have hset₂ : ∀ op ∈ ops₂, op.setter = true := fun op ho => hset op (hperm.mem_iff.2 ho)
+  have heq := run_perm_eqv_gen h₁ h₂ hperm hset hok₁ hok₂
   have hFK₁ := run_FK (L := L) h₁ ops₁ _ init_FK
   have hFK₂ := run_FK (L := L) h₂ ops₂ _ init_FK
   refine ⟨heq, fun c₁ hc₁ => completeFrames_eqv heq hFK₁ hFK₂ hc₁, ?_⟩
   intro m₁ m₂ hf₁ hf₂
-  have hnf₁ : (run L h₁ Model.init ops₁).1.finished = false := by
-    rw [(run_has ops₁ Model.init hprim hok₁).2.1]; rfl
-  have hnf₂ : (run L h₂ Model.init ops₂).1.finished = false := by
-    rw [(run_has ops₂ Model.init hprim₂ hok₂).2.1]; rfl
+  obtain ⟨hnf₁, _, hwf₁⟩ := run_setter_facts h₁ hset hok₁
+  obtain ⟨hnf₂, _, hwf₂⟩ := run_setter_facts h₂ hset₂ hok₂
   obtain ⟨_, hc₁, _⟩ := finish_self hcl h₁ hf₁ hnf₁
   obtain ⟨_, hc₂, _⟩ := finish_self hcl h₂ hf₂ hnf₂
-  obtain ⟨R1, w1, p1, k1, e1, _⟩ := finish_R hf₁ hnf₁ (run_prim_WF hprim hok₁)
-  obtain ⟨R2, w2, p2, k2, e2, _⟩ := finish_R hf₂ hnf₂ (run_prim_WF hprim₂ hok₂)
+  obtain ⟨R1, w1, p1, k1, e1, _⟩ := finish_R hf₁ hnf₁ hwf₁
+  obtain ⟨R2, w2, p2, k2, e2, _⟩ := finish_R hf₂ hnf₂ hwf₂
   have hkeys : ∀ w, w ∈ R1.keys ↔ w ∈ R2.keys := by
     intro w
     rw [k1, k2, heq.frameComplete]
     exact or_congr (heq.has (.key w)) (and_congr Iff.rfl (heq.has (.frame w)))
   have hpairs : ∀ p, p ∈ R1.pairs ↔ p ∈ R2.pairs := by
     intro p; rw [p1, p2]; exact heq.has (.pair p)
-  obtain ⟨ek, ep⟩ := Acc.enforce_set_congr hD w1 w2 hkeys hpairs
+  obtain ⟨ek, ep⟩ := Acc.enforce_set_congr_all L.frame w1 w2 hkeys hpairs
   rw [e1, e2, hc₁, hc₂]
   exact ⟨fun c => heq.has (.const c), ek, ep⟩
 
